@@ -29,6 +29,8 @@ def dtypes_for(b):
 def pack(case):
     from npstructures import BitArray
     arr = np.array(case["vals"], dtype=case["dt"]) if case["vals"] else np.zeros(0, dtype=case["dt"])
+    if case.get("swapped"):
+        arr = arr.astype(arr.dtype.newbyteorder())     # same values, non-native byte order
     return BitArray.pack(arr, case["b"])
 
 
@@ -36,7 +38,7 @@ def classify(case, ctx):
     b, n = case["b"], len(case["vals"])
     per = 64 // b
     ctx.label("b:%d" % b, "dt:" + case["dt"], "n=0" if n == 0 else "partial-register" if n % per else "full-registers",
-              "multi-register" if n > per else "single-register")
+              "multi-register" if n > per else "single-register", "byte-swapped" if case.get("swapped") else "native-order")
     return per
 
 
@@ -119,7 +121,7 @@ def bit_case(draw, tier, need_n=0):
     else:
         e = st.one_of(st.integers(0, top), st.sampled_from([0, top, 1, top >> 1]))
         vals = draw(st.lists(e, min_size=n, max_size=n))
-    return {"b": b, "dt": dt, "vals": vals}
+    return {"b": b, "dt": dt, "vals": vals, "swapped": draw(st.sampled_from([False, False, False, True]))}
 
 
 @st.composite
